@@ -31,6 +31,7 @@ def lookupHandler (fam : String) : Option Handler :=
   | "pconv" => some pconvHandler
   | "thr" => some thrHandler
   | "hist" => some histHandler
+  | "ub" => some ubHandler
   | "exc" => some excHandler
   | "text" => some textHandler
   | "f64" => some f64Handler
